@@ -156,7 +156,7 @@ PLAN = {
         note="sdo_info_object_description_list / quantities decode the accumulated buffer through derive output (C19)",
     ),
     "C17": dict(
-        verus=["dc_params", "dc_latch"], kani=["ports", "dc"], assumptions=['tree harnesses are bounded in the number of devices (listed)', 'latch_dc_times changes times only (assumed)', "R19: integer `as` casts carry Rust's truncating meaning"], level="proof",
+        verus=["dc_params", "dc_latch", "dc_parent"], kani=["ports", "dc"], assumptions=['tree harnesses are bounded in the number of devices (listed)', 'latch_dc_times changes times only (assumed)', "R19: integer `as` casts carry Rust's truncating meaning"], level="proof",
         claim="write_dc_parameters extracted WHOLE (Verus, every u64 receive time and master time): the offset sent to 0x0920 of the device's own station address is (master time - latched receive time) in 64-bit two's complement, the propagation delay computed for it goes to 0x0928, no overflow; configure_subdevice_offsets leaf (Kani, bounded: 1 parent + 1 child, all port times symbolic): the accumulated delay never decreases and is always assigned. 4-port functions of Ports proved against closed-form specs for all 16 activity patterns x all u32 times x all downstream assignments "
               "(Kani, unwinding assertions on: complete). Tree level (assign_parent_relationships / find_subdevice_parent / configure_subdevice_offsets): "
               "bounded stand-ins for N<=2 devices with symbolic link reports and N=3 chain with symbolic link delays (thorough) - labelled bounded, not counted as proved",
